@@ -1,34 +1,41 @@
 (* C14G — property statements for the CFG-pass validator (only restatements + Print Assumptions + non-vacuity). *)
 From Coq Require Import ZArith NArith Bool List String Lia.
-From Verif Require Import C14G.CfgSem C14G.CfgCheck C14G.CfgSemProofs C14G.ChainProofs C14G.FlipProofs C14G.TailProofs.
+From Verif Require Import C14G.CfgSem C14G.CfgCheck C14G.CfgSemProofs C14G.ChainProofs C14G.FlipProofs C14G.TailProofs C14G.SplitProofs.
 Import ListNotations.
 Open Scope string_scope.
 Open Scope list_scope.
 
-(* An accepted (before, after, certificate) of SimplifyCFGPass / BranchOptimizationPass / TailMergePass: for EVERY
-   meaning of the opaque instructions (osem), every label valuation and machine-state type, `after` and `before` are
-   related by a bisimulation that starts at equal initial configurations: each step of one is answered by a (possibly
-   empty) sequence of steps of the other producing the same events. *)
-Theorem cfg_check_sound_partial : forall before after c,
-  (match c with CSplit _ => False | _ => True end) ->
+(* An accepted (before, after, certificate) of SimplifyCFGPass / BranchOptimizationPass / TailMergePass /
+   CFGNormalization: for EVERY meaning of the opaque instructions (osem), every label valuation and machine-state type,
+   `after` and `before` are related by a bisimulation that starts at equal initial configurations: each step of one is
+   answered by a (possibly empty) sequence of steps of the other producing the same events. *)
+Theorem cfg_check_sound : forall before after c,
   cfg_check before after c = true -> forall M osem lv, bisimilar M osem lv after before.
 Proof.
-  intros f g [ch|F|al|F] Hk H M osem lv; simpl in *.
+  intros f g [ch|F|al|F] H M osem lv; simpl in *.
   - eapply chain_check_sound; eauto.
   - eapply flip_check_sound; eauto.
   - eapply tail_check_sound; eauto.
-  - contradiction.
+  - eapply split_check_sound; eauto.
 Qed.
-Print Assumptions cfg_check_sound_partial.
+Print Assumptions cfg_check_sound.
 
 (* consequence: the same observable traces (sequence of executed opaque instructions with their operand values,
-   results and machine states; halting instructions included), for every initial environment and machine state *)
-Theorem cfg_check_traces_partial : forall before after c,
-  (match c with CSplit _ => False | _ => True end) ->
+   results and machine states; halting instructions included), for every initial environment and machine state:
+   every execution of `after` corresponds to an execution of `before` with the same events, and vice versa *)
+Theorem cfg_check_traces : forall before after c,
   cfg_check before after c = true ->
   forall M osem lv env m tr, trace_of M osem lv after env m tr <-> trace_of M osem lv before env m tr.
-Proof. intros f g c Hk H M osem lv. apply bisimilar_traces. eapply cfg_check_sound_partial; eauto. Qed.
-Print Assumptions cfg_check_traces_partial.
+Proof. intros f g c H M osem lv. apply bisimilar_traces. eapply cfg_check_sound; eauto. Qed.
+Print Assumptions cfg_check_traces.
+
+(* the polarity of BranchOptimizationPass, in isolation: `jnz x t f` with x = iszero y takes t exactly when
+   `jnz y f t` does *)
+Theorem jnz_iszero_polarity : forall lv c y t f,
+  targets lv (mkI "jnz" [OLit (isz (oval lv c y)); OLab t; OLab f] []) c = targets lv (mkI "jnz" [y; OLab f; OLab t] []) c.
+Proof.
+  intros lv c y t f. unfold targets. simpl. unfold isz. destruct (oval lv c y =? 0)%Z; reflexivity.
+Qed.
 
 (* ------------------------------------------------------------------ non-vacuity *)
 (* runtime: x = calldataload 0; jnz x @1 @2 / 1: jmp @3 / 2: z = add y 1; jmp @3 / 3: p = phi @1 y @2 z; mstore; stop
@@ -86,3 +93,24 @@ Proof.
     apply ss_refl.
   - reflexivity.
 Qed.
+
+(* CFGNormalization: the critical edge 0 -> 2 gets the forwarding block 3 with a forwarding store *)
+Definition ex_s : func :=
+  [[mkI "calldataload" [OLit 0] [0%N]; mkI "jnz" [OVar 0; OLab 1; OLab 2] []];
+   [mkI "add" [OLit 1; OVar 0] [1%N]; mkI "jnz" [OVar 1; OLab 2; OLab 1] []];
+   [mkI "phi" [OLab 0; OVar 0; OLab 1; OVar 1] [2%N]; mkI "mstore" [OVar 2; OLit 0] []; mkI "stop" [] []]].
+Definition ex_s_ok : func :=
+  [[mkI "calldataload" [OLit 0] [0%N]; mkI "jnz" [OVar 0; OLab 1; OLab 3] []];
+   [mkI "add" [OLit 1; OVar 0] [1%N]; mkI "jnz" [OVar 1; OLab 2; OLab 1] []];
+   [mkI "phi" [OLab 3; OVar 9; OLab 1; OVar 1] [2%N]; mkI "mstore" [OVar 2; OLit 0] []; mkI "stop" [] []];
+   [mkI "assign" [OVar 0] [9%N]; mkI "jmp" [OLab 2] []]].
+Example ex_split_accepts : cfg_check ex_s ex_s_ok (CSplit [9%N]) = true.
+Proof. vm_compute. reflexivity. Qed.
+(* the phi label not updated: rejected *)
+Definition ex_s_bad : func :=
+  [[mkI "calldataload" [OLit 0] [0%N]; mkI "jnz" [OVar 0; OLab 1; OLab 3] []];
+   [mkI "add" [OLit 1; OVar 0] [1%N]; mkI "jnz" [OVar 1; OLab 2; OLab 1] []];
+   [mkI "phi" [OLab 0; OVar 9; OLab 1; OVar 1] [2%N]; mkI "mstore" [OVar 2; OLit 0] []; mkI "stop" [] []];
+   [mkI "assign" [OVar 0] [9%N]; mkI "jmp" [OLab 2] []]].
+Example ex_split_rejects : cfg_check ex_s ex_s_bad (CSplit [9%N]) = false.
+Proof. vm_compute. reflexivity. Qed.
